@@ -71,10 +71,16 @@ class GreensFunctionCache:
         if path.exists():
             logger.debug("Cache hit: %s", key[:12])
             _verif.emit("cache_get", key=key[:16], exists=True)
-            data = np.load(path)
-            grid = (data["X"], data["Y"], data["Z"])
+            try:
+                with np.load(path) as data:
+                    grid = (data["X"], data["Y"], data["Z"])
+                    conc, flx = data["conc"], data["flx"]
+            except Exception as e:
+                # truncated or corrupt file (e.g. an interrupted run): treat as a miss
+                logger.warning("Ignoring unreadable cache entry %s: %s", key[:12], e)
+                return None
             _verif.emit("cache_hit", key=key[:16])
-            return grid, data["conc"], data["flx"]
+            return grid, conc, flx
         logger.debug("Cache miss: %s", key[:12])
         _verif.emit("cache_get", key=key[:16], exists=False)
         return None
